@@ -6,8 +6,10 @@ def visitor_nontrivial(tok, res):
     if k in ("conn", "svis", "vbegin", "vend"):
         return res.startswith(("queued", "dropped", "paused", "ok:", "err:auth", "err:notallowed", "err:closed", "err:norun",
                                "err:encfail"))
-    if k in ("natv", "snat"):
+    if k in ("natv", "snat", "natflood"):
         return res.startswith(("sid:", "preok", "err:auth", "err:notallowed"))
+    if k == "slogin":
+        return res == "ok"
     if k == "accept":
         return res.startswith("c")
     if k == "drain":
@@ -21,6 +23,12 @@ def visitor_nontrivial(tok, res):
 
 def visitor_class(r):
     head = r.split(" ")[0]
+    if "*" in head:            # natflood: <answer>*<k>
+        a = head.split("*")[0]
+        return ("mixed" if head.startswith("mixed:") else a.split(":")[0] if a.startswith("sid:") else a) + "*k" + \
+            ("" if r.endswith(" left=0") else " +left")
+    if " left=" in r and not r.endswith(" left=0"):
+        return head.split(":")[0][:12] + " +left"
     if head.startswith("ok:") and head.count(":") == 2:
         return "ok:" + head.rsplit(":", 1)[1]
     if head.startswith(("ok:", "sid:")):
@@ -90,6 +98,13 @@ PROP = {
             "Frp.C08.xt_tunnel_up_prefix", "Frp.C08.xt_tunnel_up_complete", "Frp.C08.xt_tunnel_keyed",
             "Frp.C08.xt_tunnel_keyed_iff", "Frp.C08.xv_fallback_served_entitled", "Frp.C08.xtAdmB_entitled",
             "Frp.C08.xv_hole_ok_admB", "Frp.C08.xtHoldsOn_sound",
+            # §10 run ids over login / re-login / logout histories (ControlManager), §11 refused NAT-hole requests
+            "Frp.C08.cm_designates", "Frp.C08.owns_unique", "Frp.C08.visitor_user_is_current_owner",
+            "Frp.C08.visitor_user_unknown", "Frp.C08.relogin_takes_over", "Frp.C08.stale_del_noop",
+            "Frp.C08.owner_del_forgets", "Frp.C08.resolveUser_users", "Frp.C08.ctls_track_step",
+            "Frp.C08.ctls_track_manager", "Frp.C08.visitorConn_user_is_designated",
+            "Frp.C08.relogin_closes_replaced", "Frp.C08.natVisit_out_indep", "Frp.C08.nat_refused_leaves_nothing",
+            "Frp.C08.flood_refused_leaves_nothing", "Frp.C08.leavesNothingB_sound", "Frp.C08.model_leavesNothing",
         ],
         "engines": [
             {"name": "visitor", "quick_n": 6000, "thorough_n": 20000, "thorough_seeds": 5,
@@ -109,7 +124,16 @@ PROP = {
                 "manager's lock until the NewConn has returned; (B) one real server.Service "
                 "on loopback with scripted raw peers (login, NewProxy stcp/sudp/xtcp, NewVisitorConn with own/empty/unknown/"
                 "foreign run ids, NatHoleVisitor with pre-check on/off, CloseProxy, disconnect), owners checked for "
-                "ReqWorkConn by a ping barrier, admitted streams echoed both ways under all enc/comp declarations. "
+                "ReqWorkConn by a ping barrier, admitted streams echoed both ways under all enc/comp declarations; run ids "
+                "change hands: logins under a run id that is still registered (re-login: frps replaces the control), "
+                "logout-then-login, run ids never seen before, with the same and with different users, between visits of "
+                "one proxy that allows the first user only — each login carries a control number (Login.Hostname) and "
+                "after every visitor request the service's own ControlManager is asked which control it holds under the "
+                "claimed run id (compared with the model's table; the request is judged for the user of the control that "
+                "currently owns the run id). \"Leaves no session state behind\": after every NAT-hole request (single, and "
+                "floods of 2-41 identical requests handled concurrently: unknown proxy, wrong key, right key with a user "
+                "outside the list, pre-checks, granted ones) the controller's own session table is counted (layer A and, "
+                "through Service.rc, layer B); a request that was not granted must not have made it bigger. "
                 "A case is non-trivial when a request is admitted or refused for the key, the user, the run id or a "
                 "closed listener; distinct = distinct (op line, result) pairs. "
                 "xtcp engine: one real frps, one real frpc owning xtcp and stcp proxies (every enc/comp declaration, allow lists "
@@ -129,7 +153,12 @@ PROP = {
             "(real visitor.Manager.Listen/NewConn/CloseListener, InternalListener.PutConn/Close/Accept, nathole.Controller."
             "ListenClient/CloseClient/HandleVisitor, util.GetAuthKey, and through a real server.Service: RegisterControl, "
             "Control.RegisterProxy/CloseProxy, stcp/sudp/xtcp Run/Close, RegisterVisitorConn, handleNatHoleVisitor)",
-            "verif hook pkg/nathole/verif_export.go (VerifSessions: number of stored sessions)",
+            "verif hooks pkg/nathole/verif_export.go (VerifSessions: the stored session ids) and server/verif_sess.go "
+            "(VerifSessDump: run id -> Login.Hostname of the control the ControlManager holds); the service's NAT-hole "
+            "controller is reached through the unexported field Service.rc by reflection (read-only)",
+            "model Frp/Model/CtlMgr.lean (ControlManager.Add / Del / GetByID with control identities, RegisterVisitorConn's "
+            "user resolution) written by hand; tied by layer B of the visitor engine (real RegisterControl incl. replacement, "
+            "ControlManager.Add/Del/GetByID, RegisterVisitorConn)",
             "model Frp/Model/XtcpVisitor.lean (client/visitor/xtcp.go as a transition system; makeNatHole answered by the "
             "server model) written by hand; tied by the xtcp engine (real client.Service with XTCPVisitor.Run / worker / "
             "handleConn / openTunnel / getTunnelConn / makeNatHole / processTunnelStartEvents / keepTunnelOpenWorker / Close, "
@@ -144,7 +173,10 @@ PROP = {
             "signatures) is claimed.  GetAuthKey concatenates sk and the decimal timestamp without a separator: ('s1', 2) "
             "and ('s', 12) give the same key — kept faithfully in the model",
             "a run id is a bearer token: RegisterVisitorConn takes the user of whatever live session carries the claimed "
-            "run id (modelled as is; possession is not proved by the visitor connection)",
+            "run id (modelled as is; possession is not proved by the visitor connection); run ids are chosen by the client, a "
+            "login under a live run id replaces its control and from its acknowledgement on the run id stands for the new "
+            "login's user (spec `Owns`); the window between ControlManager.Add and the end of the replaced control "
+            "(its proxies still registered, the run id already the new user's) is not driven (C12/C16's subject)",
             "the pre-check branch does not look at the key (modelled as is: theorem precheck_ignores_key); it stores nothing "
             "and notifies nobody",
             "GenSid never repeats a live session id; NatHoleTimeout set to 0 in the harness so that an admitted NAT-hole "
@@ -188,7 +220,11 @@ META = {
                 "histories everything waiting in any accept queue was admitted under the key and list of the entry "
                 "holding it — also for every interleaving of NewConn (held up between its checks and the hand-over) with "
                 "Listen / CloseListener under the manager's lock: the listener a connection is handed to is the one "
-                "registered under the requested name at that moment and the one it was checked against. The NAT-hole request branch checks the key but not the allow list: witness proved and "
+                "registered under the requested name at that moment and the one it was checked against. Whose user a run id "
+                "stands for: over all histories of ControlManager.Add / Del calls (logins, re-logins under a run id that is "
+                "still registered, Dels by owners and by replaced controls) GetByID designates exactly the control that "
+                "currently owns the run id, and the user RegisterVisitorConn checks is that control's login user. A refused "
+                "NAT-hole request, and any flood of them, leaves the sessions map as it was. The NAT-hole request branch checks the key but not the allow list: witness proved and "
                 "reproduced on the real code (known finding), full theorem proved for the repaired branch "
                 "(hooks/C08-fix-nathole-allowusers.patch, switch Visitor.natFixed). "
                 "Client side (xtcp): for every history of the xtcp visitor's goroutines (connections arriving, openTunnel's "
